@@ -288,6 +288,133 @@ def worker(job):
 
 
 # --------------------------------------------------------------------------
+# histories with threads: "never hangs, whatever was parsed earlier in the same process"
+
+REFUSED = ['failure_test_bad_resp_name.d.res', 'failure_test_no_a_opt.d.res',
+           'failure_noaopt_uniform_sources.d.res', 'tungstene_missing_vals.d.res',
+           'failure_test_no_simu_time.d.res']
+ACCEPTED = ['pertu_covariances.d.res.ceav5', 'ttsSimplePacket20.d.PARA.res.ceav5',
+            'failure_test_no_normal_completion.d.res', 'test_adjoint_small.d.res',
+            'greenband_exploit_T410_contrib.d.res.ceav5']
+
+
+def draw_thread_history(rng, repo, kind):
+    '''a sequence of (thread, listing, cut) executed one after the other, every
+    thread staying alive until the end.  kind 0: refused listing(s) in one
+    thread, then an accepted one in another; 1: the reverse; 2: two or three
+    threads alternating over both kinds, complete or cut after the end flag.'''
+    def item(name):
+        size = os.path.getsize(os.path.join(repo, DATA, name))
+        if rng.random() < 0.3:
+            data = open(os.path.join(repo, DATA, name), 'rb').read()
+            marks = [i for i in range(len(data)) if data.startswith(b' time (s)', i)]
+            if marks:       # cut just after an end-flag line, or anywhere
+                pos = data.find(b'\n', rng.choice(marks))
+                return [name, pos + 1 if pos >= 0 and rng.random() < 0.7 else rng.randrange(size)]
+        return [name, size]
+    if kind == 0:
+        steps = [[0] + item(rng.choice(REFUSED)) for _ in range(rng.choice([1, 1, 2]))]
+        steps += [[1] + item(rng.choice(ACCEPTED)), [0] + item(rng.choice(ACCEPTED))]
+    elif kind == 1:
+        steps = [[0] + item(rng.choice(ACCEPTED)), [1] + item(rng.choice(REFUSED)),
+                 [0] + item(rng.choice(ACCEPTED)), [2] + item(rng.choice(ACCEPTED))]
+    else:
+        nthr = rng.choice([2, 3])
+        steps = [[rng.randrange(nthr)] + item(rng.choice(REFUSED + ACCEPTED))
+                 for _ in range(rng.randint(4, 7))]
+    return steps
+
+
+def thread_history(job):
+    '''run one history in this (fresh) process: persistent daemon threads, one
+    parse at a time, each under the watchdog'''
+    common.import_repo()
+    import logging
+    import queue
+    import threading
+    logging.disable(logging.CRITICAL)
+    from valjean.eponine.tripoli4.parse import Parser, ParserException
+    wdir, hid, steps, repo, watchdog = job
+    threads = {}
+    results = []
+
+    def loop(inq, outq):
+        while True:
+            path = inq.get()
+            if path is None:
+                return
+            try:
+                pres = Parser(path).parse_from_index(-1)
+                out = ['ok', edition_digest(pres.res)]
+            except ParserException:
+                out = ['ParserException', None]
+            except Exception as exc:  # noqa
+                out = [type(exc).__name__, None]
+            outq.put(out)
+    for num, (tid, name, cut) in enumerate(steps):
+        if tid not in threads:
+            inq, outq = queue.Queue(), queue.Queue()
+            thr = threading.Thread(target=loop, args=(inq, outq), daemon=True)
+            thr.start()
+            threads[tid] = (thr, inq, outq)
+        path = os.path.join(wdir, f'hist{hid}_{num}.res')
+        with open(path, 'wb') as fil:
+            fil.write(open(os.path.join(repo, DATA, name), 'rb').read()[:cut])
+        thr, inq, outq = threads[tid]
+        inq.put(path)
+        try:
+            out = outq.get(timeout=watchdog)
+        except queue.Empty:
+            out = ['HANG', None]
+        results.append(out)
+        if out[0] == 'HANG':
+            break
+    for thr, inq, outq in threads.values():
+        inq.put(None)
+    for name in os.listdir(wdir):
+        if name.startswith(f'hist{hid}_'):
+            os.unlink(os.path.join(wdir, name))
+    return results
+
+
+def run_thread_histories(ctx):
+    quick = ctx.tier == 'quick'
+    nhist = 12 if quick else 120
+    watchdog = 20 if quick else 40
+    jobs = []
+    for hid in range(nhist):
+        steps = draw_thread_history(ctx.rng, common.REPO, hid % 3)
+        jobs.append((ctx.wd(), hid, steps, common.REPO, watchdog))
+    with multiprocessing.get_context('fork').Pool(min(common.NPROC, 6), maxtasksperchild=1) as pool:
+        outs = pool.map(thread_history, jobs, chunksize=1)
+    reference = {}
+    for job, results in zip(jobs, outs):
+        steps = job[2]
+        case = {'kind': 'threads', 'steps': steps}
+        ctx.count('thread_histories')
+        nontrivial = False
+        for num, (out, (tid, name, cut)) in enumerate(zip(results, steps)):
+            where = (f'step {num} (thread {tid}, {name} cut at {cut}) of the history '
+                     + ' ; '.join(f't{t}:{n}[:{c}]' for t, n, c in steps[:num + 1]))
+            ctx.count('thread_step_' + out[0])
+            if out[0] == 'HANG':
+                ctx.oracle_failure(f'parsing hangs in a thread after earlier parses in other threads :: {where}',
+                                   case, key='thread-history-hang')
+            elif out[0] not in ('ok', 'ParserException'):
+                ctx.oracle_failure(f'parsing raises {out[0]} in a thread :: {where}', case,
+                                   key='thread-history-raises-' + out[0])
+            else:
+                # same listing and cut -> same outcome, whatever thread and whatever came before
+                prev = reference.setdefault((name, cut), out)
+                if prev != out:
+                    ctx.oracle_failure(f'outcome depends on the thread / on what was parsed earlier '
+                                       f'({prev[0]} then {out[0]}) :: {where}', case,
+                                       key='thread-history-differs')
+                nontrivial = nontrivial or (num > 0 and out[0] == 'ok')
+        ctx.case_seen({'kind': 'threads', 'steps': steps}, nontrivial, sample_every=5)
+
+
+# --------------------------------------------------------------------------
 # generators
 
 def key_line_offsets(data, stride, rng, per_kind=None):
@@ -864,12 +991,15 @@ def run(ctx):
     ctx.rule = ('byte prefixes of example listings (every byte of the lines the scanner interprets, a '
                 'stride elsewhere), of edition variants the grammar accepts and of synthetic scanner '
                 'listings (mono/para, repeated batch numbers, partial editions, CRLF, no final newline); '
-                'non-trivial = a strict prefix whose scan keeps at least one edition, or a parse that '
-                'succeeds; distinct by (listing, offset)')
+                'histories of parses in two or three threads that stay alive (grammar-refused listings '
+                'first, then accepted ones in another thread; the reverse; alternating), each parse under a '
+                'watchdog; non-trivial = a strict prefix whose scan keeps at least one edition, or a parse '
+                'that succeeds (after another parse, for a history); distinct by (listing, offset) / steps')
     jobs = build_jobs(ctx)
     t0 = time.time()
     with multiprocessing.get_context('fork').Pool(min(common.NPROC, 14)) as pool:
         outs = pool.map(worker, jobs, chunksize=1)
+    run_thread_histories(ctx)
     ctx.extra['implementation_wall_s'] = round(time.time() - t0, 1)
     # which listings store a batch number twice: compare line-boundary prefixes (cheap, synthetic only)
     shards, indexes = [], []
@@ -925,6 +1055,14 @@ def replay(ctx, path):
     logging.disable(logging.CRITICAL)
     data = json.load(open(path))
     case = data['case']
+    if case.get('kind') == 'threads':
+        print('history (thread, listing, cut):', case['steps'])
+        with multiprocessing.get_context('fork').Pool(1, maxtasksperchild=1) as pool:
+            res = pool.map(thread_history, [(ctx.wd(), 0, case['steps'], common.REPO, 30)])[0]
+        for step, out in zip(case['steps'], res):
+            print('impl:', step, '->', out[0])
+        print('model: parse is a total function of the listing text (C11/Model.v): every step returns')
+        return 0
     name, off = case['listing'], case['offset']
     if case.get('data_hex'):
         blob = bytes.fromhex(case['data_hex'])
